@@ -154,3 +154,5 @@ pub fn generate(out: &mut Out, tier: &str, seed: u64) {
 }
 
 pub const RULE: &str = "LimitIter: exhaustive over item counts 0..=7 (thorough 12) and all (begin,end) in -9..=9 (thorough -15..=15), plus random larger ones; Handles: union and intersection of every ordered pair of duplicate-free handle lists of length <=3 over 5 handles (thorough <=4 over 6), in every order (so sorted and unsorted flags both occur), followed by contains() probes of every handle, plus seeded random lists over up to 24 handles; from_iter/contains/sort on every list. Non-trivial: limit result non-empty and shorter than the input; both operands with more than one element. distinct = distinct request lines.";
+
+pub const EXHAUSTIVE: bool = true;
